@@ -108,8 +108,9 @@ structure Input where
   partCount : Nat := 2
   /-- the `order` field (`HilbertCurve`) -/
   order : Nat := 0
-  /-- `CompleteKarmarkarKarp`: `T::from_f64(sum.to_f64().unwrap() * tolerance)` is `Some`
-  (false for a NaN/infinite/out-of-range product) -/
+  /-- `CompleteKarmarkarKarp`: the conversion of the bound to the weight type,
+  `T::from_f64(bound).or_else(|| (bound >= sum_f64).then_some(sum))`, is `Some`
+  (false for a NaN product, or an out-of-range one that is below the rounded sum) -/
   tolOk : Bool := true
   /-- `Rib`: the floating-point computations of `OrientedBoundingBox::from_points` do not
   panic on this point set (they do not for finite coordinates in every run of the
@@ -185,7 +186,7 @@ def step (g : Guard) (i : Input) (np : Nat) : Step :=
     if hilbertMaxOrder3d < i.order then .stop ⟨.invalidOrder hilbertMaxOrder3d i.order, .none⟩ else .next np
   -- `index_fn_2d/3d: OrientedBoundingBox::from_points(points).unwrap()`
   | .hilbertIndexFn => if i.points = 0 then .stop ⟨.panic .unwrapNone, .none⟩ else .next np
-  -- `let tolerance = T::from_f64(sum.to_f64().unwrap() * tolerance).unwrap();`
+  -- `let tolerance = T::from_f64(bound).or_else(|| (bound >= sum_f64).then_some(sum)).unwrap();`
   | .ckkTolConv => if i.tolOk then .next np else .stop ⟨.panic .unwrapNone, .none⟩
   -- `rib: OrientedBoundingBox::from_points(points)` (an empty set gives `None`: rib hands the
   -- input to rcb either way, so there is nothing else to decide here)
